@@ -666,18 +666,14 @@ fn shrink(src: &str, full: bool, key: &str) -> String {
 /// root-cause class of a violation (prefix of the key used by known_findings.json).
 /// The classes repaired in /repo (escape-greek-split, combining-mark-ident-split, guard-error-span,
 /// fmt-eol-comment-map: d7485e2, d674421, 38275da) are no longer recognised: whatever looks like them
-/// is reported as a regression / unclassified violation.  Open classes: the 16-bit clamp of the formatter's
-/// output column, and the trimming of a non-ASCII-whitespace identifier before an end-of-line comment.
+/// is reported as a regression / unclassified violation.  Only the 16-bit clamp of the formatter's
+/// output column is still an open class (the trimming of a non-ASCII-whitespace identifier before an
+/// end-of-line comment was repaired by e63e963).
 fn cause(key: &str, detail: &str, _shrunk: &str) -> &'static str {
     if key == "loc-u16-saturation" {
         ""
     } else if key == "gmap-out/col-saturated" {
         "fmt-out-col-u16"
-    } else if key.starts_with("gmap-out/") && _shrunk.contains('#') && _shrunk.chars().any(|c| c.is_whitespace() && !c.is_ascii()) {
-        // format.rs:608 trims the lines that get an end-of-line comment with trim_end(): a token made of a
-        // non-ASCII whitespace character (U+0085, U+00A0, U+2028 .. are lexed as identifiers) at the end of such
-        // a line is deleted from the text and the glyph-map entries of the line keep the untrimmed positions
-        "fmt-eol-comment-ws-ident"
     } else if detail.contains("too long]") {
         "regression-guard-error-span"
     } else {
@@ -736,8 +732,6 @@ const OC_CORPUS: &[&str] = &[
     "┌─╴M\n  °△2_3 ##\n  1 °△2_2\n  ###\n└─╴\n",
     "┌─╴M\n  [1_2 3_4]\n  ##\n  {°△2_2 °△2_3}\n  ##\n  5 ##\n└─╴\n",
     "F ← (\n  \"hi\" # c\n  °△3_1\n  ##\n  ◌◌\n)\nF\n",
-    // open finding fmt-eol-comment-ws-ident: an identifier made of a non-ASCII whitespace character before an end-of-line comment
-    "!\u{85} #",
 ];
 
 /// former failing inputs of repaired defect classes: replayed first by `tie` and `search`
@@ -761,6 +755,11 @@ const REGRESSION: &[(&str, &str)] = &[
     ("fmt-eol-comment-map", "\u{1d110}#\r\n!"),
     ("fmt-eol-comment-map", "o#\n*"),
     ("fmt-eol-comment-map", "1 #a\n2#b\n+ # c\n\u{2b8c}"),
+    // e63e963: trim_end() of a commented line deleted an identifier made of a non-ASCII whitespace character
+    ("fmt-eol-comment-ws-ident", "!\u{85} #"),
+    ("fmt-eol-comment-ws-ident", "v\u{2028} #"),
+    ("fmt-eol-comment-ws-ident", "\u{2082}\u{a0} # c\n2"),
+    ("fmt-eol-comment-ws-ident", "\"\"\u{85} #\n()\u{a0}  # c"),
 ];
 
 // ---------------------------------------------------------------- output
